@@ -144,13 +144,32 @@ def _ecdsa_verify(ex, args, ins, where):
 @intrinsic('(*github.com/decred/dcrd/dcrec/secp256k1/v4.PublicKey).SerializeUncompressed',
            '(github.com/decred/dcrd/dcrec/secp256k1/v4.PublicKey).SerializeUncompressed')
 def _ser_uncompressed(ex, args, ins, where):
+    kb = _known_key_bytes(ex, args[0])
+    if kb is not None:
+        x, y = _ec_point(kb)
+        return ex.mkslice([4] + list(x.to_bytes(32, 'big')) + list(y.to_bytes(32, 'big')))
     vs = [4] + [ex.fresh('secp.SerializeUncompressed', 8) for _ in range(64)]
     return ex.mkslice(vs)
+
+
+def _known_key_bytes(ex, p):
+    """serialized bytes of a key parsed from concrete bytes (None when unknown)"""
+    if isinstance(p, Ptr):
+        o = ex.heap[p.obj]
+    else:
+        o = p
+    if isinstance(o, OpaqueKey) and all(not is_sym(b) for b in o.key):
+        return list(o.key)
+    return None
 
 
 @intrinsic('(*github.com/decred/dcrd/dcrec/secp256k1/v4.PublicKey).SerializeCompressed',
            '(github.com/decred/dcrd/dcrec/secp256k1/v4.PublicKey).SerializeCompressed')
 def _ser_compressed(ex, args, ins, where):
+    kb = _known_key_bytes(ex, args[0])
+    if kb is not None:
+        x, y = _ec_point(kb)
+        return ex.mkslice([2 + (y & 1)] + list(x.to_bytes(32, 'big')))
     b0 = ex.fresh('secp.SerializeCompressed', 8)
     if is_sym(b0):
         ex.add(z3.Or(b0 == 2, b0 == 3))
